@@ -261,9 +261,15 @@ def conflictsWithinSelectionSet (s : Schema) (d : Document) (fuel : Nat) (parent
       loop rest acc
   loop c.2 r
 
-/-- recursion budget of the model: three levels of calls per level of nesting, plus room for
-    fragment chains (the real recursion is unbounded on some cyclic documents: finding F16) -/
-def mergeFuel (d : Document) : Nat := 400 + 3 * docDepth d
+/-- recursion budget of the model.  The last summand is PROVED sufficient on every document without
+    fragment cycles (`C03.merge_terminates_acyclic`, Lemmas/MergeTerm.lean): `2·#fragments + 4` call
+    levels per unit of expanded height (find_conflict, between-sub-selection-sets, at most
+    `2·#fragments` steps along chains of nested spreads, collect-conflicts-between), and the expanded
+    height of a selection set of the document is at most `(#fragments + 2) · depth`.  The first two
+    summands are room for cyclic documents, on which the memo table ends the real recursion (when it
+    does: on some cyclic documents the real recursion is unbounded, finding F16). -/
+def mergeFuel (d : Document) : Nat :=
+  400 + 3 * docDepth d + (2 * d.fragments.length + 4) * ((d.fragments.length + 2) * docDepth d + 1)
 
 structure MergeRuleState where
   compared : PairSet := []
